@@ -12,7 +12,7 @@ import numpy as np
 
 from sim.engine import Sim, call, canon
 from sim.rng import Rng, h64
-from models.ref_surface import RefSurface, is_oriented_manifold, has_chord
+from models.ref_surface import RefSurface, is_oriented_manifold, is_regular_complex
 from models.ref_volume import RefVolume, is_conforming_tet_mesh, det3, sub
 from models import surfgen, volgen
 
@@ -106,8 +106,9 @@ class C13(Sim):
     QUICK_RUNS = 2500
     THOROUGH_RUNS = 250000
     BLOCK = 20
-    ASSUMPTIONS = ["admitted surfaces have no face with a chord (two non-consecutive vertices of a face joined by a mesh edge): such a face cannot be triangulated along "
-                   "its diagonals without breaking manifoldness",
+    ASSUMPTIONS = ["admitted surfaces are regular cell complexes: two distinct faces share nothing, one vertex or exactly one common edge. (Where two quads meet in "
+                   "two opposite corners, or a face has a chord, the library's fixed choice of diagonal yields a non-manifold triangulation; the documentation "
+                   "admits no such input explicitly, and repairing it needs an edge lookup per triangulated quad.)",
                    "face-specific operations target a face whose arity is known from the face list read through editor.mesh just before the call",
                    "total area is compared only when every non-triangular face of the block's input is planar and convex (otherwise triangulating changes the area by definition)",
                    "'new vertex at the centre' is checked per operation against the face/edge list read through the public editor.mesh just before the operation, for single-level operations "
@@ -124,8 +125,8 @@ class C13(Sim):
             wr = rng.fork("w")
             for _try in range(30):
                 p, f = surfgen.gen_surface(wr, rng.choice([1, 4, 8, 16, 30]), tri_only=tri, allow_union=rng.chance(0.2))
-                if not has_chord(f):
-                    break  # a face with a chord cannot be triangulated by diagonals without breaking manifoldness: not an admitted input
+                if is_regular_complex(f):
+                    break  # admitted surfaces are regular cell complexes (two faces meet in nothing, one vertex or one common edge)
             else:
                 p, f = surfgen.grid(2, 2, "quad", wr)
             flat = all(len(x) == 3 for x in f)
